@@ -1,5 +1,5 @@
 """C01 — answers equal depth-first SLD resolution (structural clauses)."""
-from solver import (Solver, goal_kinds, real_calls, is_none, some_payload, str_cell, const_false, node_field_writes,
+from solver import (outcome_of, Solver, goal_kinds, real_calls, is_none, some_payload, str_cell, const_false, node_field_writes,
                     NODE_TY)
 from sym import Walker, strip, show, mentions
 
@@ -222,7 +222,7 @@ def run(ctx):
                 n3 += 1
             elif e["k"] == "write" and e["place"] == ri and cnt is not None:
                 v = strip(e["value"])
-                if v[0] == "field" and v[1][0] == "binop" and v[1][1] in ("AddWithOverflow", "Add") and v[1][3][0] == "const" and v[1][3][3] == 1:
+                if v[0] == "binop" and v[1] == "Add" and v[3][0] == "const" and v[3][3] == 1 and strip(v[2]) == ri:
                     cnt += 1
                 else:
                     ok3, why3 = False, "rule_index is assigned %s" % show(v)
@@ -301,12 +301,12 @@ def run(ctx):
                         ok, why = False, "the right-hand node is created before the left goal was searched"
                     elif nm == "or":
                         res = searched_head["result"]
-                        none = any(c == ("variant", res) and v == "None" for c, v, bb in p.decisions)
+                        none = outcome_of(p, res) == "None"
                         if not none:
                             ok, why = False, "the right alternative is started although the left one did not fail"
                     elif nm == "and":
                         res = searched_head["result"]
-                        some = any(c == ("variant", res) and v == "Some" for c, v, bb in p.decisions)
+                        some = outcome_of(p, res) == "Some"
                         if not some:
                             ok, why = False, "the rest of the conjunction is started although the left goal has no answer"
         ctx.ob("R4", "left-to-right(%s)" % nm, ok and n > 0, ctx.where(F), why or "left goal searched first (%d events)" % n)
@@ -352,7 +352,7 @@ def run(ctx):
             else:
                 res = fs["result"]
                 nxt = [e for e in p.calls() if e["callee"] in solver_fns and e is not fs]
-                if nxt and not any(c == ("variant", res) and v == "None" for c, v, bb in p.decisions):
+                if nxt and outcome_of(p, res) != "None":
                     ok, why = False, "the head is re-asked although the stored tail still had an answer"
         elif fs is not None and strip(fs["args"][0]) != head:
             ok, why = False, "without a stored tail the conjunction starts with %s" % show(fs["args"][0])
